@@ -7,8 +7,8 @@ HI = "vlib.harness.itr"
 
 
 def specs(tier):
-    out = _par.roundtrip_specs("quick", ("two", "multi"), "infer-line") if tier == "quick" else \
-        _par.roundtrip_specs("thorough", ("two", "multi", "flag"), "infer-line")
+    # per-line inference: the deep value bounds are C07's thorough tier (same harness); here all skeletons x 3 shapes
+    out = _par.roundtrip_specs("quick", ("two", "multi") if tier == "quick" else ("two", "multi", "flag", "one"), "infer-line")
     for key in ("sep", "trail", "fmt"):
         for n in (0, 1, 2):
             if n == 0 and key != "sep":
